@@ -341,6 +341,29 @@ def _content_coding(kind_i, payload, framing, cuts, xname=False, overrun=0):
     return kindr == 'ok' and got == payload
 
 
+def _coded_chunks(kind_i, payload, split, cuts):
+    """A coded body sent in TWO chunks with the boundary anywhere inside the encoded stream - in particular a first chunk that holds
+    only (part of) the gzip / zlib header and therefore decodes to nothing yet."""
+    kind = pick(['gzip', 'zlib', 'raw'], kind_i)
+    payload = fixlen(payload, 2)
+    D.zlib = zmodel
+    enc = zmodel.encode(kind, [payload])
+    split = realize_int(split, 1, 24)
+    if split >= len(enc):
+        return True
+    ce = b'gzip' if kind == 'gzip' else b'deflate'
+    wire = b'HTTP/1.1 200 OK\r\nContent-Encoding: ' + ce + b'\r\nTransfer-Encoding: chunked\r\n\r\n'
+    for piece in (enc[:split], enc[split:]):
+        wire = wire + ('%x' % len(piece)).encode() + b'\r\n' + piece + b'\r\n'
+    wire = wire + b'0\r\n\r\n'
+    try:
+        kindr, status, got, conn = _read(wire, cuts)
+    except zmodel.OutOfModel:
+        return True
+    hit('decoded')
+    return kindr == 'ok' and got == payload and conn.pos == len(wire)
+
+
 _CUTS = 'cuts: List[int]'
 HARNESSES = [
     H('by_length', '_by_length', 'body: bytes, cl: int, ' + _CUTS + ', lf_only: bool, keep_alive_hdr: bool, odd_i: int',
@@ -431,6 +454,14 @@ HARNESSES = [
       funcs=['wpull/protocol/http/stream.py:Stream._setup_decompressor', 'wpull/protocol/http/stream.py:Stream.read_body'],
       doc='a gzip / deflate coded response followed by an identity response on the same Stream (keep-alive): the decoder of the first '
           'exchange is not applied to the second, whose symbolic body is delivered verbatim - also when the second is read with raw=True'),
+    H('coded_chunks', '_coded_chunks', 'kind_i: int, payload: bytes, split: int, ' + _CUTS,
+      pre={'quick': ['0 <= kind_i <= 2 and len(payload) <= 1 and 1 <= split <= 24 and len(cuts) == 0'],
+           'thorough': ['0 <= kind_i <= 2 and len(payload) <= 2 and 1 <= split <= 24 and len(cuts) <= 2']},
+      parts=[{'tag': 'k%d' % k, 'fix': {'kind_i': str(k)}} for k in range(3)],
+      timeout={'quick': 250, 'thorough': 1200}, samples=[(0, b'a', 10, []), (1, b'a', 1, []), (2, b'ab', 1, [])], need=['decoded'],
+      funcs=['wpull/protocol/http/stream.py:Stream._read_body_by_chunk', 'wpull/protocol/http/stream.py:Stream._decompress_data'],
+      doc='a gzip / deflate coded body carried in two chunks whose boundary lies at every position of the encoded stream (a first chunk '
+          'of just the 10-byte gzip header, a 1-byte chunk ...): decoded body == payload and the whole message is consumed'),
     H('content_coding', '_content_coding', 'kind_i: int, payload: bytes, framing: int, ' + _CUTS + ', xname: bool, overrun: int',
       pre={'quick': ['0 <= kind_i <= 2 and len(payload) <= 1 and 0 <= framing <= 2 and len(cuts) <= 2 and 0 <= overrun <= 2'],
            'thorough': ['0 <= kind_i <= 2 and len(payload) <= 3 and 0 <= framing <= 2 and len(cuts) <= 3 and 0 <= overrun <= 2']},
